@@ -276,7 +276,7 @@ def resolve_option(p: PPoint, name, levels):
 # ---------------------------------------------------------------------------------------------
 # verification
 # ---------------------------------------------------------------------------------------------
-def verify_to_dict(cls, fn_ast, namespace, p: PPoint, levels, passed, timeout_ms=10000):
+def verify_to_dict(cls, fn_ast, namespace, p: PPoint, levels, passed, timeout_ms=10000, view_factory=None, inline=None):
     """levels: the option levels in effect for this unit in precedence order;
     passed: frozenset of flag parameter names given by the caller (others take their defaults)"""
     eng = pysym.Engine()
@@ -292,8 +292,12 @@ def verify_to_dict(cls, fn_ast, namespace, p: PPoint, levels, passed, timeout_ms
         return None
 
     ex = pysym.Executor(eng, namespace, hooks={"tm_attr": tm_attr})
+    if inline:
+        ex.inline = inline
+    spec_hyps = []
     # preconditions on a conforming instance: hole serialisation and isnan do not raise
     ex.assume_hasattr = True
+    ex.nonraising.add(("meth", "copy"))
     ex.nonraising.add(("meth", "_serialize"))
     ex.nonraising.add(("meth", "__mashumaro_to_dict__"))
     ex.nonraising.add(_const_key(math.isnan))
@@ -308,7 +312,10 @@ def verify_to_dict(cls, fn_ast, namespace, p: PPoint, levels, passed, timeout_ms
     if "dialect" in params:
         args["dialect"] = Ob(None)
     pre = [eng.typeof(self_c) == eng.const(cls)]
-    view = pack_view(cls)
+    # conforming instance: whatever a packer iterates is iterable
+    _v = z3.Const("v!iter", eng.V)
+    pre.append(z3.ForAll([_v], eng.iterable(_v), patterns=[eng.iterable(_v)]))
+    view = view_factory(eng, spec_hyps, ex) if view_factory else pack_view(cls)
     # conforming instance: a non-nullable field is not None
     for fv in view:
         a = eng.func(f"attr!{fv.name}", eng.V, eng.V)(self_c)
@@ -338,16 +345,21 @@ def verify_to_dict(cls, fn_ast, namespace, p: PPoint, levels, passed, timeout_ms
         by_alias = by_alias if by_alias is not None else z3.BoolVal(False)
     # --- spec entries
     entries = []
+    spec_raises = []
     order = sorted(view, key=lambda v: v.name) if p.sort_keys else view
     for fv in order:
         if fv.omit:
             continue
         a = eng.func(f"attr!{fv.name}", eng.V, eng.V)(self_c)
         raw = Tm(a)
+        rz_f = z3.BoolVal(False)
         if fv.kind == "id":
             packed = raw
         elif fv.kind == "hole":
             packed = Call(("meth", "_serialize"), "meth__serialize", [raw])
+        elif fv.kind == "ref":
+            packed = fv.pack_fn(raw)
+            rz_f = fv.pack_fn.raises[-1]
         elif fv.kind == "dc":
             inner_flags = class_flags(fv.inner)
             kw = []
@@ -387,11 +399,12 @@ def verify_to_dict(cls, fn_ast, namespace, p: PPoint, levels, passed, timeout_ms
         else:
             keys = [(z3.BoolVal(True), fv.name)]
         entries.append((fv, z3.Not(drop), keys, value))
-    prover = pysym.Prover(eng, timeout_ms, extra_axioms=pre)
+        spec_raises.append(z3.And(z3.Not(drop), z3.Not(isnone) if fv.nullable else z3.BoolVal(True), rz_f))
+    prover = pysym.Prover(eng, timeout_ms, extra_axioms=pre + spec_hyps)
     verdicts = []
     for i, path in enumerate(paths):
         detail = list(problems)
-        goal = outcome_goal(eng, path, entries, detail) if not problems else z3.BoolVal(False)
+        goal = outcome_goal(eng, path, entries, detail, spec_raises) if not problems else z3.BoolVal(False)
         v = prover.prove(f"path{i}", path.pc, goal)
         v.path = path
         v.detail = (v.detail + " " + "; ".join(sorted(set(detail)))).strip()
@@ -400,7 +413,7 @@ def verify_to_dict(cls, fn_ast, namespace, p: PPoint, levels, passed, timeout_ms
     for path in paths:
         if path.kind == "return":
             r, _ = prover.sat(path.pc)
-            if r == z3.sat:
+            if r != z3.unsat:
                 cover = True
                 break
     return {"verdicts": verdicts, "paths": len(paths), "cover": cover, "queries": prover.queries,
@@ -430,10 +443,19 @@ def _canonical_default(namespace, default):
     return default
 
 
-def outcome_goal(eng, path, entries, detail):
+def outcome_goal(eng, path, entries, detail, spec_raises=()):
+    """a raising path is admitted exactly when the reference packer of some emitted field raises
+    (non-conforming instance); a returning path must equal PROJECT and no reference packer raises"""
+    anyr = z3.Or(*spec_raises) if spec_raises else z3.BoolVal(False)
     if path.kind != "return":
-        detail.append(f"unexpected exception path {path.value!r}")
-        return z3.BoolVal(False)
+        if not spec_raises or all(z3.is_false(z3.simplify(r)) for r in spec_raises):
+            detail.append(f"unexpected exception path {path.value!r}")
+            return z3.BoolVal(False)
+        return anyr
+    return z3.And(z3.Not(anyr), _mapping_goal(eng, path, entries, detail))
+
+
+def _mapping_goal(eng, path, entries, detail):
     got = path.value
     if not isinstance(got, LD):
         detail.append(f"result is not a locally built dict: {got!r}")
